@@ -128,6 +128,14 @@ def requests(tier, named=True):
             if len(R) >= 2:
                 out.append((spell(R, [i % 2 for i in range(len(R))]), list(R)))
                 out.append((spell(R, [(i + 1) % 2 for i in range(len(R))]), list(R)))
+    # other containers for the request: tuples and NumPy arrays of names or positions (one, two and more entries)
+    for R in ([0], [2, 1], [3, 0, 1], [1, 2, 3, 0], [3, 2]):
+        out.append((tuple(R), list(R)))
+        if not named:
+            out.append((np.array(R), list(R)))       # (a sample's name lookup refuses position arrays: TypeError, by its documented interface)
+        if named:
+            out.append((tuple(NAMES[j] for j in R), list(R)))
+            out.append((np.array([NAMES[j] for j in R]), list(R)))
     # the same channel named more than once in a request is converted once
     for j in range(4):
         k = (j + 1) % 4
